@@ -552,31 +552,46 @@ func cpuTraces(r *Reporter, dir string) {
 		Case *ProgCase
 		Cfg  Config
 	}
+	// the cases are generated once (the cycle-accurate MVP-4/5 model is not needed here) and run on the three variants
+	var cases []*ProgCase
+	var cmu sync.Mutex
+	for _, fr := range fams {
+		o := TLCOpts{Module: fr.Module, Cfg: famCfg(fr.Consts), Simulate: fr.Simulate, Depth: fr.Depth, Seed: seed*1000 + fr.SeedOff, Env: map[string]string{"VERIF_CYC4": "0"}}
+		streamCases(r, o, 4, func(c *ProgCase) {
+			if c.Exp.Status == "err" {
+				return
+			}
+			cmu.Lock()
+			cases = append(cases, c)
+			cmu.Unlock()
+		})
+	}
 	for _, variant := range []string{"mvp7-0", "mvp7-1", "mvp8-0"} {
 		path := filepath.Join(dir, variant+".cpu.ndjson")
 		tw := newTraceWriter(path)
 		var descs []runDesc
 		var dmu sync.Mutex
-		for _, fr := range fams {
-			o := TLCOpts{Module: fr.Module, Cfg: famCfg(fr.Consts), Simulate: fr.Simulate, Depth: fr.Depth, Seed: seed*1000 + fr.SeedOff}
-			streamCases(r, o, 16, func(c *ProgCase) {
-				if c.Exp.Status == "err" {
-					return
+		ch := make(chan *ProgCase, 64)
+		go func() {
+			for _, c := range cases {
+				ch <- c
+			}
+			close(ch)
+		}()
+		parallel(ch, 16, func(c *ProgCase) {
+			for par := 1; par <= 4; par++ {
+				cfg := Config{Variant: variant, Par: par}
+				snaps := cpuSnapshots(c, cfg)
+				r.Eval(hashKey("cpu", c.Key(), cfg.String()), true)
+				dmu.Lock()
+				id := tw.addRunLocked(snaps)
+				for len(descs) <= id {
+					descs = append(descs, runDesc{})
 				}
-				for par := 1; par <= 4; par++ {
-					cfg := Config{Variant: variant, Par: par}
-					snaps := cpuSnapshots(c, cfg)
-					r.Eval(hashKey("cpu", c.Key(), cfg.String()), true)
-					dmu.Lock()
-					id := tw.addRunLocked(snaps)
-					for len(descs) <= id {
-						descs = append(descs, runDesc{})
-					}
-					descs[id] = runDesc{c, cfg}
-					dmu.Unlock()
-				}
-			})
-		}
+				descs[id] = runDesc{c, cfg}
+				dmu.Unlock()
+			}
+		})
 		tw.close()
 		bad := validateTrace(r, path, tw.lines)
 		r.addTraces(int64(len(descs)))
